@@ -21,6 +21,7 @@ sys.path.insert(0, os.path.join(ROOT, "lib"))
 GOENV = dict(os.environ, GOFLAGS="-mod=mod", GOPROXY="off")
 GOENV.pop("GOTOOLCHAIN", None) if os.environ.get("GOTOOLCHAIN") == "local" else None
 NCPU = os.cpu_count() or 4
+BATCH = 400000
 
 FORBIDDEN = re.compile(r"\b(Admitted|admit|Axiom|Axioms|Parameter|Parameters|Conjecture|Conjectures|"
                        r"Admit Obligations|Unset Guard Checking|bypass_check|Unset Positivity Checking|"
@@ -110,9 +111,10 @@ def build_driver():
     ex = os.path.join(BUILD, "extract")
     os.makedirs(ex, exist_ok=True)
     drv = os.path.join(BUILD, "driver")
-    dep = max(os.path.getmtime(os.path.join(COQ, "Model", "Dispatch.vo")),
-              os.path.getmtime(os.path.join(ROOT, "driver", "driver.ml")),
-              os.path.getmtime(os.path.join(COQ, "Extract", "Extract.v")))
+    vos = [os.path.join(d, f) for sub in ("Model", "Base", "Gen") for d, _, fs in os.walk(os.path.join(COQ, sub)) for f in fs if f.endswith(".vo")]
+    dep = max([os.path.getmtime(v) for v in vos] +
+              [os.path.getmtime(os.path.join(ROOT, "driver", "driver.ml")),
+               os.path.getmtime(os.path.join(COQ, "Extract", "Extract.v"))])
     if os.path.exists(drv) and os.path.getmtime(drv) >= dep:
         return True, ""
     r = run(["coqc", "-Q", COQ, "Klog", os.path.join(COQ, "Extract", "Extract.v")], cwd=ex)
@@ -315,33 +317,44 @@ def run_check(pid, tier, seed):
     corpus = load_corpus(pid)
     for su in mod.suites():
         ts = time.time()
-        reqs = [c for c in corpus.get(su.name, [])] + list(su.gen(tier, random.Random(rng.getrandbits(64))))
-        impl = impl_run(reqs, su.env)
-        if not su.model:
-            model = impl
-        else:
-            model = model_run(reqs) if (okc and okd) else ["?model-unavailable"] * len(reqs)
-        mism, orc_fail, nontriv = [], [], set()
-        dist = {}
-        for i, req in enumerate(reqs):
-            io, mo = impl[i], model[i]
-            kind = req.split(" ", 1)[0] + ":" + io.split(" ", 1)[0]
-            dist[kind] = dist.get(kind, 0) + 1
-            if su.nontrivial(req, io):
-                nontriv.add(req)
-            bad = None
-            if su.oracle:
-                v = su.oracle(req, io)
-                if v:
-                    bad = ("oracle", v)
-            if bad is None and io != mo:
-                bad = ("mismatch", "model and implementation differ")
-            if bad:
-                k = match_known(known, pid, su.name, req, io, mod)
-                if k:
-                    known_lines.append((k, req))
-                    continue
-                (orc_fail if bad[0] == "oracle" else mism).append((req, io, mo, bad[1]))
+        source = itertools.chain(corpus.get(su.name, []), su.gen(tier, random.Random(rng.getrandbits(64))))
+        mism, orc_fail = [], []
+        dist, nreq, nnontriv, samples = {}, 0, 0, []
+        # requests are processed in batches so that exhaustive enumerations of tens of millions of cases fit in memory
+        while True:
+            reqs = list(itertools.islice(source, BATCH))
+            if not reqs:
+                break
+            impl = impl_run(reqs, su.env)
+            if not su.model:
+                model = impl
+            else:
+                model = model_run(reqs) if (okc and okd) else ["?model-unavailable"] * len(reqs)
+            nontriv = set()
+            for i, req in enumerate(reqs):
+                io, mo = impl[i], model[i]
+                kind = req.split(" ", 1)[0] + ":" + io.split(" ", 1)[0][:24]
+                dist[kind] = dist.get(kind, 0) + 1
+                if su.nontrivial(req, io):
+                    nontriv.add(req)
+                bad = None
+                if su.oracle:
+                    v = su.oracle(req, io)
+                    if v:
+                        bad = ("oracle", v)
+                if bad is None and io != mo:
+                    bad = ("mismatch", "model and implementation differ")
+                if bad:
+                    k = match_known(known, pid, su.name, req, io, mod)
+                    if k:
+                        known_lines.append((k, req))
+                        continue
+                    if len(orc_fail) + len(mism) < 200:
+                        (orc_fail if bad[0] == "oracle" else mism).append((req, io, mo, bad[1]))
+            if len(samples) < 6:
+                samples += [{"request": clip(reqs[j]), "impl": clip(impl[j])} for j in sample_idx(len(reqs), rng)][:6 - len(samples)]
+            nreq += len(reqs)
+            nnontriv += len(nontriv)
         for req, io, mo, why in orc_fail[:3]:
             p = write_replay(pid, {"kind": "property-oracle-failed", "suite": su.name, "request": req, "impl": io,
                                    "model": mo, "why": why, "seed": seed, "replay_cmd": "./check.py %s --replay <this file>" % pid})
@@ -355,10 +368,10 @@ def run_check(pid, tier, seed):
                     violations.append((p, ""))
             elif not orc_fail:
                 corr_broken.append((su.name, mism[0]))
-        suites_ev.append({"suite": su.name, "requests": len(reqs), "distinct_nontrivial": len(nontriv),
+        suites_ev.append({"suite": su.name, "requests": nreq, "distinct_nontrivial": nnontriv,
                           "mismatches": len(mism), "oracle_failures": len(orc_fail), "distribution": top_dist(dist),
-                          "exhaustive": bool(su.exhaustive and su.exhaustive(tier)), "rule": su.rule,
-                          "samples": [{"request": clip(reqs[j]), "impl": clip(impl[j])} for j in sample_idx(len(reqs), rng)],
+                          "exhaustive": bool(su.exhaustive and su.exhaustive(tier)), "rule": su.rule + " (distinct counted per batch of %d requests)" % BATCH,
+                          "samples": samples,
                           "wall_s": round(time.time() - ts, 2)})
     seen = set()
     for k, req in known_lines:
